@@ -87,7 +87,11 @@ def detect_all(extra):
     results = []
     for seed_dir in sorted(glob.glob("/verif/seeded/*/")):
         meta = json.load(open(os.path.join(seed_dir, "meta.json"), encoding="utf-8"))
-        prop = meta["property"]
+        prop = meta["property"][:3]
+        if (meta.get("detection") or {}).get("tier") == "thorough" and "thorough" not in extra:
+            results.append({"id": meta["id"], "property": prop, "status": "thorough-tier-only (not run)"})
+            print(json.dumps(results[-1]), flush=True)
+            continue
         out_dir = tempfile.mkdtemp(prefix="seed-detect-")
         code, out = sh(["git", "-C", "/repo", "apply", os.path.join(seed_dir, "patch.diff")])
         if code != 0:
@@ -112,8 +116,8 @@ def detect_all(extra):
     os.makedirs("/verif/selftest_results", exist_ok=True)
     with open("/verif/selftest_results/seeded.json", "w", encoding="utf-8") as stream:
         json.dump(results, stream, indent=1)
-    missed = [r for r in results if r["status"] != "detected"]
-    print(f"SEEDED: {len(results) - len(missed)}/{len(results)} detected")
+    missed = [r for r in results if r["status"] not in ("detected", "thorough-tier-only (not run)")]
+    print(f"SEEDED: {len(results) - len(missed)}/{len(results)} detected or thorough-only")
     return 0 if not missed else 1
 
 
